@@ -537,6 +537,16 @@ class Engine(object):
                     w.violate("F", "FatalReturnCodeError carries code %r; the "
                               "datagram received had %#x"
                               % (rc, self.fatal_seen[0]), kind="fatal-code")
+                # when the error names a command it is the rejected one
+                pk = getattr(exc, "packet", None)
+                if pk is not None and \
+                        getattr(pk, "arg1", None) != self.fatal_seen[1]:
+                    w.violate("F", "FatalReturnCodeError names %r; the "
+                              "command rejected with %#x was %r"
+                              % (getattr(pk, "arg1", pk if not isinstance(
+                                  pk, (bytes, bytearray)) else
+                                  "<raw bytes>"), self.fatal_seen[0],
+                                 self.fatal_seen[1]), kind="fatal-names")
         # callbacks never ran for commands that were not answered
         for c in cmds:
             if c.callbacks and not c.ok_returned and not single:
